@@ -73,7 +73,7 @@ Lemma fema_step_err (k c x : float) (al E M R0 : R) :
   bpow radix2 (-960) <= M -> M <= bpow radix2 990 ->
   finF c -> Rabs (FR c - E) <= R0 -> 0 <= R0 <= M -> Rabs E <= M -> okin M x ->
   let out := (k * x + (1 - k) * c)%float in
-  finF out /\ Rabs (FR out - (al * FR x + (1 - al) * E)) <= (1 + 7 * u) * R0 + 31 * u * M.
+  finF out /\ Rabs (FR out - (al * FR x + (1 - al) * E)) <= (1 - al + 7 * u) * R0 + 31 * u * M.
 Proof.
   intros Fk Hk [Ha0 Ha1] HMl HMu Fc Hc [HR0 HRM] HE [Fx Hx] out. pose proof BIG_ge as HB.
   pose proof u_pos as Hu0. pose proof u_le as Hu1. pose proof eta_pos as He0. pose proof eta_le_u as Heu.
@@ -86,9 +86,10 @@ Proof.
   set (ka := FR k) in *. set (xv := FR x) in *. set (cv := FR c) in *.
   assert (Hka : Rabs ka <= 1 + 7 * u).
   { replace ka with ((ka - al) + al) by ring. eapply Rle_trans; [apply Rabs_triang|]. rewrite (Rabs_pos_eq al) by lra. lra. }
-  assert (H1k : Rabs (1 - ka) <= 1 + 7 * u).
+  assert (H1k : Rabs (1 - ka) <= 1 - al + 7 * u).
   { replace (1 - ka) with ((1 - al) + (al - ka)) by ring. eapply Rle_trans; [apply Rabs_triang|].
     rewrite (Rabs_pos_eq (1 - al)) by lra. rewrite Rabs_minus_sym. lra. }
+  assert (H1k' : Rabs (1 - ka) <= 1 + 7 * u) by lra.
   assert (Hcv : Rabs cv <= 2 * M).
   { replace cv with ((cv - E) + E) by ring. eapply Rle_trans; [apply Rabs_triang|]. lra. }
   assert (HuM : 0 < u * M) by (apply Rmult_lt_0_compat; assumption).
@@ -124,12 +125,12 @@ Proof.
     assert (Rabs (FR o1 * cv) * Rabs e3 <= (1 + 10 * u) * (2 * M) * u) by (apply Rmult_le_compat; try apply Rabs_pos; assumption).
     lra. }
   (* o1 * c against (1 - al) * E *)
-  assert (D4 : Rabs (FR o1 * cv - (1 - al) * E) <= (1 + 7 * u) * R0 + 13 * u * M).
+  assert (D4 : Rabs (FR o1 * cv - (1 - al) * E) <= (1 - al + 7 * u) * R0 + 13 * u * M).
   { replace (FR o1 * cv - (1 - al) * E) with ((FR o1 - (1 - ka)) * cv + (1 - ka) * (cv - E) + (al - ka) * E) by ring.
     eapply Rle_trans; [apply Rabs_triang|]. eapply Rle_trans; [apply Rplus_le_compat_r, Rabs_triang|].
     rewrite !Rabs_mult.
     assert (Rabs (FR o1 - (1 - ka)) * Rabs cv <= 3 * u * (2 * M)) by (apply Rmult_le_compat; try apply Rabs_pos; assumption).
-    assert (Rabs (1 - ka) * Rabs (cv - E) <= (1 + 7 * u) * R0) by (apply Rmult_le_compat; try apply Rabs_pos; assumption).
+    assert (Rabs (1 - ka) * Rabs (cv - E) <= (1 - al + 7 * u) * R0) by (apply Rmult_le_compat; try apply Rabs_pos; assumption).
     assert (Rabs (al - ka) * Rabs E <= 7 * u * M) by (apply Rmult_le_compat; try apply Rabs_pos; [rewrite Rabs_minus_sym|]; assumption).
     lra. }
   assert (D5 : Rabs (FR m1 - al * xv) <= 10 * u * M).
@@ -143,7 +144,8 @@ Proof.
     assert (al * Rabs xv <= al * M) by (apply Rmult_le_compat_l; lra).
     assert ((1 - al) * Rabs E <= (1 - al) * M) by (apply Rmult_le_compat_l; lra). lra. }
   assert (HuR : u * R0 <= u * M) by (apply Rmult_le_compat_l; lra).
-  assert (D6 : Rabs (FR m1 + FR m2 - E') <= (1 + 7 * u) * R0 + 27 * u * M).
+  assert (HalR : 0 <= al * R0) by (apply Rmult_le_pos; lra).
+  assert (D6 : Rabs (FR m1 + FR m2 - E') <= (1 - al + 7 * u) * R0 + 27 * u * M).
   { unfold E'. replace (FR m1 + FR m2 - (al * xv + (1 - al) * E))
       with ((FR m1 - al * xv) + (FR m2 - FR o1 * cv) + (FR o1 * cv - (1 - al) * E)) by ring.
     eapply Rle_trans; [apply Rabs_triang|]. eapply Rle_trans; [apply Rplus_le_compat_r, Rabs_triang|]. lra. }
@@ -185,7 +187,10 @@ Proof.
     { destruct HR0 as [_ H]. eapply Rle_trans; [exact H|]. rewrite S_INR in Htu1.
       assert (32 * INR t * u <= 1) by nra. replace (32 * INR t * u * M) with ((32 * INR t * u) * M) by ring.
       rewrite <- (Rmult_1_l M) at 2. apply Rmult_le_compat_r; lra. }
-    destruct (fema_step_err (kf p) c x al E M R0 Fk Hk Hal HMl HMu Fc Hc (conj (proj1 HR0) HRM) HE Hx) as [Fo Ho].
+    destruct (fema_step_err (kf p) c x al E M R0 Fk Hk Hal HMl HMu Fc Hc (conj (proj1 HR0) HRM) HE Hx) as [Fo Ho0].
+    assert (Ho : Rabs (FR (kf p * x + (1 - kf p) * c)%float - (al * FR x + (1 - al) * E)) <= (1 + 7 * u) * R0 + 31 * u * M).
+    { eapply Rle_trans; [exact Ho0|]. assert (0 <= al * R0) by (apply Rmult_le_pos; [lra|apply HR0]). lra. }
+    clear Ho0.
     set (o := (kf p * x + (1 - kf p) * c)%float) in *. set (E' := al * FR x + (1 - al) * E) in *.
     assert (HE' : Rabs E' <= M).
     { unfold E'. destruct Hx as [_ Hx]. destruct Hal as [Ha0 Ha1]. eapply Rle_trans; [apply Rabs_triang|].
@@ -297,4 +302,87 @@ Proof.
     + destruct (Hn j ltac:(lia)) as [Fo Ho]. split; [exact Fo|]. eapply Rle_trans; [exact Ho|].
       replace (1 + j + 1)%nat with (S j + 1)%nat by lia. apply ema_bound_tau; [exact HM0|].
       change 1 with (INR 1). apply le_INR. lia.
+Qed.
+
+(* ---- streams of ANY length: the recursion contracts, so the error saturates at 34 u M / alpha = 17 (n+1) u M ---- *)
+Lemma fema_sat (p : N) (al M S : R) : finF (kf p) -> Rabs (FR (kf p) - al) <= 7 * u -> 0 < al <= 1 -> 91 * u <= al ->
+  bpow radix2 (-960) <= M -> M <= bpow radix2 990 -> 0 <= S -> al * S = 34 * u * M ->
+  forall xs (c : float) (E R0 : R),
+  finF c -> Rabs (FR c - E) <= R0 -> 0 <= R0 <= S -> Rabs E <= M -> Forall (okin M) xs ->
+  let outs := ema_outs O (mkEma p (kf p) c false) xs in
+  let reals := ema_real al E (map FR xs) in
+  length outs = length xs /\ length reals = length xs /\
+  forall j, (j < length xs)%nat -> finF (nth j outs 0%float) /\ Rabs (FR (nth j outs 0%float) - nth j reals 0) <= S.
+Proof.
+  intros Fk Hk Hal Hal91 HMl HMu HS0 HS. pose proof u_pos as Hu0. pose proof u_le as Hu1.
+  assert (HM0 : 0 < M) by (eapply Rlt_le_trans; [apply bpow_gt_0|exact HMl]).
+  assert (HuM : 0 < u * M) by (apply Rmult_lt_0_compat; assumption).
+  assert (HSM : 91 * S <= 34 * M).
+  { assert (H1 : 91 * u * S <= al * S) by (apply Rmult_le_compat_r; lra).
+    apply Rmult_le_reg_l with u; [exact Hu0|]. lra. }
+  assert (HuS : u * S <= u * M) by (apply Rmult_le_compat_l; lra).
+  induction xs as [|x xs IH]; intros c E R0 Fc Hc HR0 HE Hxs outs reals.
+  - split; [reflexivity|]. split; [reflexivity|]. intros j Hj. cbn in Hj. lia.
+  - pose proof (Forall_inv Hxs) as Hx. pose proof (Forall_inv_tail Hxs) as Hxs'.
+    assert (HRM : R0 <= M) by lra.
+    destruct (fema_step_err (kf p) c x al E M R0 Fk Hk Hal HMl HMu Fc Hc (conj (proj1 HR0) HRM) HE Hx) as [Fo Ho].
+    set (o := (kf p * x + (1 - kf p) * c)%float) in *. set (E' := al * FR x + (1 - al) * E) in *.
+    assert (HE' : Rabs E' <= M).
+    { unfold E'. destruct Hx as [_ Hx]. destruct Hal as [Ha0 Ha1]. eapply Rle_trans; [apply Rabs_triang|].
+      rewrite !Rabs_mult, (Rabs_pos_eq al), (Rabs_pos_eq (1 - al)) by lra.
+      assert (al * Rabs (FR x) <= al * M) by (apply Rmult_le_compat_l; lra).
+      assert ((1 - al) * Rabs E <= (1 - al) * M) by (apply Rmult_le_compat_l; lra). lra. }
+    assert (Hfac : 0 <= 1 - al + 7 * u) by lra.
+    assert (HR' : (1 - al + 7 * u) * R0 + 31 * u * M <= S).
+    { assert (H1 : (1 - al + 7 * u) * R0 <= (1 - al + 7 * u) * S) by (apply Rmult_le_compat_l; lra).
+      replace ((1 - al + 7 * u) * S) with (S - al * S + 7 * (u * S)) in H1 by ring. rewrite HS in H1.
+      replace (31 * u * M) with (31 * (u * M)) by ring. replace (34 * u * M) with (34 * (u * M)) in H1 by ring.
+      assert (7 * (u * S) <= 3 * (u * M)).
+      { replace (7 * (u * S)) with (u * (7 * S)) by ring. replace (3 * (u * M)) with (u * (3 * M)) by ring. apply Rmult_le_compat_l; lra. }
+      lra. }
+    assert (HR'0 : 0 <= (1 - al + 7 * u) * R0 + 31 * u * M).
+    { assert (0 <= (1 - al + 7 * u) * R0) by (apply Rmult_le_pos; lra). replace (31 * u * M) with (31 * (u * M)) by ring. lra. }
+    destruct (IH o E' ((1 - al + 7 * u) * R0 + 31 * u * M) Fo Ho (conj HR'0 HR') HE' Hxs') as (L1 & L2 & Hn).
+    unfold outs, reals. cbn [ema_outs map ema_real]. unfold ema_next. cbn [ema_is_new ema_k ema_current ema_period mul add sub one O].
+    fold o. fold E'. cbn [length]. split; [now rewrite L1|]. split; [now rewrite L2|].
+    intros [|j] Hj; cbn [nth].
+    + split; [exact Fo|]. lra.
+    + apply Hn. cbn [length] in Hj. lia.
+Qed.
+
+(* binary64 EMA, streams of any length: uniformly within 17 (n+1) 2^-53 M of the real recursion *)
+Theorem ema_float_uniform : forall p s xs M, ema_new O p = Ok s -> (p < 140737488355328)%N ->
+  bpow radix2 (-960) <= M -> M <= bpow radix2 990 -> Forall (okin M) xs ->
+  let outs := ema_outs O s xs in
+  let reals := ema_stream (kreal p) (map FR xs) in
+  length outs = length xs /\
+  forall j, (j < length xs)%nat ->
+    finF (nth j outs 0%float) /\ Rabs (FR (nth j outs 0%float) - nth j reals 0) <= 17 * (IZR (Z.of_N p) + 1) * u * M.
+Proof.
+  intros p s xs M H Hp HMl HMu Hxs outs reals. pose proof u_pos as Hu0.
+  assert (HM0 : 0 <= M) by (eapply Rle_trans; [apply bpow_ge_0|exact HMl]).
+  unfold ema_new in H. destruct (N.eqb_spec p 0) as [->|Hp0]; [discriminate|]. injection H as <-.
+  destruct (kf_close p ltac:(lia)) as [Fk Hk]. change (alpha p) with (kreal p) in Hk.
+  assert (Hal : 0 < kreal p <= 1) by (apply kreal_range; exact Hp0).
+  set (n1 := IZR (Z.of_N p) + 1).
+  assert (Hn1 : 2 <= n1) by (unfold n1; assert (1 <= IZR (Z.of_N p)) by (apply IZR_le; lia); lra).
+  assert (Hn1u : n1 <= 2 ^ 47 + 1) by (unfold n1; assert (IZR (Z.of_N p) <= 2 ^ 47) by (replace (2 ^ 47) with (IZR 140737488355328) by (cbn; lra); apply IZR_le; lia); lra).
+  assert (Ek : kreal p = 2 / n1) by reflexivity.
+  assert (Hal91 : 91 * u <= kreal p).
+  { rewrite Ek. apply Rmult_le_reg_r with n1; [lra|]. replace (2 / n1 * n1) with 2 by (field; lra).
+    assert (Hu : u <= 12 / 10 ^ 17) by (unfold u; cbn; lra).
+    assert (91 * u * n1 <= 91 * (12 / 10 ^ 17) * (2 ^ 47 + 1)) by (apply Rmult_le_compat; try lra; apply Rmult_le_pos; lra). lra. }
+  set (S := 17 * n1 * u * M).
+  assert (HS0 : 0 <= S) by (unfold S; apply Rmult_le_pos; [apply Rmult_le_pos; [lra|lra]|exact HM0]).
+  assert (HSeq : kreal p * S = 34 * u * M) by (rewrite Ek; unfold S; field; lra).
+  destruct xs as [|x xs]; [split; [reflexivity|intros j Hj; cbn in Hj; lia]|].
+  pose proof (Forall_inv Hxs) as Hx. pose proof (Forall_inv_tail Hxs) as Hxs'.
+  unfold outs, reals. cbn [ema_outs map ema_stream]. unfold ema_next at 1. cbn [ema_is_new ema_k ema_current ema_period].
+  change (2 / (f_ofN p + 1))%float with (kf p).
+  assert (A1 : Rabs (FR x - FR x) <= 0) by (rewrite Rminus_diag_eq by reflexivity; rewrite Rabs_R0; lra).
+  pose proof (fema_sat p (kreal p) M S Fk Hk Hal Hal91 HMl HMu HS0 HSeq xs x (FR x) 0 (proj1 Hx) A1 (conj (Rle_refl 0) HS0) (proj2 Hx) Hxs') as (L1 & L2 & Hn).
+  cbn [length]. split; [now rewrite L1|].
+  intros [|j] Hj; cbn [nth].
+  - split; [apply Hx|]. rewrite Rminus_diag_eq by reflexivity. rewrite Rabs_R0. exact HS0.
+  - apply Hn. lia.
 Qed.
